@@ -123,6 +123,9 @@ def named(draw):
         pre = f"{draw(st.sampled_from(['In re', 'Ex parte']))} {draw(_name)}"
     else:
         pre = draw(_name)
+    if draw(st.integers(0, 11)) == 0:
+        # the name-first form with the pin cite in front of the citation: "Bar at 7, 1 U.S. 1"
+        pre = f"{draw(_name)} at {draw(_num)}"
     if draw(st.integers(0, 14)) == 0:
         # an excerpt cut inside a caption: the stop word is the first word, no plaintiff precedes it
         pre = f"{draw(st.sampled_from(['v.', 'v. ', 'v']))} {draw(_name)}".replace("  ", " ")
@@ -130,7 +133,9 @@ def named(draw):
         pre += f" ({draw(_year)})"
     sep = draw(st.sampled_from([", ", " ", ", ", ",  "]))
     s = pre + sep + draw(full())
-    if draw(st.integers(0, 2)) == 0:
+    for _ in range(2):  # up to three parallel citations
+        if draw(st.integers(0, 2)) != 0:
+            break
         s += ", " + draw(full())
     return s
 
